@@ -109,7 +109,7 @@ def _check_main(run, P):
     run.do(_genfunc, run, P)
     # lowering and plan execution are part of both back ends' contract
     run.rule("C01.lower", "the lowering keeps order, loops and guards (shared with "
-             "C05.topo / C05.wrap / C05.table / C05.walker)", minimum=15)
+             "C05.topo / C05.wrap / C05.table / C05.walker and the clauses of C06)", minimum=30)
     run.rule("C01.plan", "the interpreter's plan execution (shared with C04.post / "
              "C04.front / C04.mark / C04.dispatch / C04.reset / C04.sinks / "
              "C04.guardeval)", minimum=15)
@@ -127,6 +127,8 @@ def _check_main(run, P):
         del run.minimum[src_rule]
     run.do(c05.lowering_table, run, P, "C01.lower")
     _alias(run, "C05.walker", "C01.lower", lambda: c05._walker(run, P))
+    # the simplifier sits between the lowering and the walker of the Python generator
+    c05.simplifier_clauses(run, P, "C01.lower")
     C = P.cls(c04.EC)
     _alias(run, "C04.post", "C01.plan", lambda: c04._post(run, P, C))
     _alias(run, "C04.post", "C01.plan", lambda: c04._skipsets(run, P, C))
